@@ -299,3 +299,105 @@ def _descends(br, anc):
 
 def show(nodes):
     return [lexgen.polish(lexgen.from_json(sj)) + ('' if d is None else ' +' if d else ' -') + ('' if w is None else ' w%s' % w) for sj, d, w in nodes]
+
+# ---------------------------------------------------------------------------
+# C05 interleaved histories: padding, forks with both sides receiving later nodes, step() calls
+# between arrivals (a second root branch carries pending work so that a step does not finish
+# the tableau)
+
+def gen_interleaved_case(rng, sem):
+    base = gen_literal_case(rng, sem)
+    nodes = base['nodes']
+    w0 = nodes[0][2]
+    des = None if sem.classical else True
+    pad = rng.choice((0, 0, 3, 6, 7, 10))
+    pads = [[lexgen.to_json(('A', 3, 20 + i)), des, w0] for i in range(pad)]
+    work = rng.choice((0, 2, 4, 6))
+    events = []
+    nb = 1
+    live_sets = {0: list(pads)}            # branch ordinal -> delivered literal items
+    forked = False
+    fresh_fork = None
+    for i, item in enumerate(nodes):
+        if work and rng.random() < 0.25:
+            events.append(['step'])
+        cur = 0
+        if not forked and i >= 1 and rng.random() < 0.35 and satisfiable(sem, live_sets[0])[0]:
+            events.append(['fork', 0])
+            live_sets[nb] = list(live_sets[0])
+            fresh_fork = nb
+            nb += 1
+            forked = True
+            # the parent side gets a node of its own first (as in a real fork)
+            events.append(['filler', 0])
+        if forked:
+            cur = fresh_fork if rng.random() < 0.6 else 0
+        events.append(['add', cur, i])
+        live_sets[cur].append(item)
+    if forked and not any(e[0] == 'add' and e[1] == fresh_fork for e in events):
+        events.append(['filler', fresh_fork])
+    if work and rng.random() < 0.5:
+        events.append(['step'])
+    return dict(logic=sem.name, kind=base['kind'], nodes=nodes, pads=pads, work=work, events=events,
+                order_seed=base['order_seed'], interleaved=True)
+
+def execute_interleaved(spec):
+    """Returns (verdict|None, info). Per-branch oracle: a closed branch's own nodes are jointly
+    unsatisfiable; after a completed build an open branch's own nodes are jointly satisfiable."""
+    sem = refsem.get(spec['logic'])
+    _verif.reset(spec.get('order_seed', 0))
+    tab = Tableau(spec['logic'], max_steps=60)
+    branches = [tab.branch()]
+    nodes = spec['nodes']
+    des = None if sem.classical else True
+    w0 = nodes[0][2] if nodes else None
+    def add(br, item):
+        sj, d, w = item
+        br.append(sdwnode(lexgen.build(lexgen.from_json(sj)), d, w))
+    for item in spec.get('pads', ()):
+        add(branches[0], item)
+    if spec.get('work'):
+        other = tab.branch()
+        s = ('A', 4, 9)
+        for _ in range(spec['work']):
+            s = ('O', 'Negation', (s,))
+        add(other, [lexgen.to_json(s), des, w0])
+    nfill = [0]
+    info = dict(steps=0, branches=0, closed=[], sat=None, stepped=0, dropped=0)
+    try:
+        for ev in spec['events']:
+            if tab.finished:
+                info['dropped'] += 1
+                continue
+            if ev[0] == 'step':
+                tab.step()
+                info['stepped'] += 1
+            elif ev[0] == 'fork':
+                if branches[ev[1]].closed:
+                    branches.append(None)
+                else:
+                    branches.append(tab.branch(branches[ev[1]]))
+            else:
+                br = branches[ev[1]]
+                if br is None or br.closed:
+                    info['dropped'] += 1
+                    continue
+                if ev[0] == 'filler':
+                    nfill[0] += 1
+                    add(br, [lexgen.to_json(('A', 4, 30 + nfill[0])), des, w0])
+                else:
+                    add(br, nodes[ev[2]])
+        tab.build()
+    except Exception as e:
+        return ('build-raises', 'interleaved history over %s raised %s: %s' % (show(nodes), type(e).__name__, e)), info
+    info.update(steps=len(tab.history), branches=len(tab), closed=[br.closed for br in tab])
+    for br in tab:
+        items = [[lexgen.to_json(lexgen.to_ast(n['sentence'])), n.get('designated'), n.get('world')] for n in br if isinstance(n, SentenceNode)]
+        sat, detail = satisfiable(sem, items)
+        if br.closed and sat:
+            return ('closed-satisfiable', 'a branch holding %s closed although these nodes are jointly satisfiable (history: %s)' % (
+                show(items)[-6:], spec['events'])), info
+        if not br.closed and not sat and not tab.premature:
+            return ('open-unsatisfiable', 'a branch holding %s stays open after a completed build although no value satisfies %s at world %s (history: %s)' % (
+                show(items)[-6:], lexgen.polish(detail[0]) if detail else '?', detail[1] if detail else '?', spec['events'])), info
+    return None, info
